@@ -655,4 +655,63 @@ Section Facts.
     inversion Hwf as [|? ? Hlen Hwf']; subst. simpl. rewrite (IH Hwf'). f_equal.
     rewrite Ha, Hb, Hd. rewrite (reindexed_data_same _ _ c ND Hlen). reflexivity.
   Qed.
+
+  (* the result is well formed again (every series has the new span's length): reindex calls can be chained *)
+  Theorem reindex_wf (st st' : cst) (new_span : span) (new_id : Z) (fv : pyval) (strict : option bool)
+          (fills : list (string * pyval)) (fresh : Z) :
+    wf st -> old_span_ok (c_span st) (span_labels new_span) ->
+    reindex_M' st new_span new_id fv strict fills fresh = Ret st' -> wf st'.
+  Proof.
+    intros Hwf Hok H.
+    destruct (reindex_values st st' new_span new_id fv strict fills fresh Hwf Hok H) as [Hsp [_ [_ [_ HF]]]].
+    unfold wf. rewrite Hsp. exact (proj2 (proj2 (series_rel_meta _ _ _ _ _ _ HF))).
+  Qed.
+
+  Lemma reindexed_data_roundtrip ols nls (d : list cell) c1 c2 :
+    NoDup ols -> length d = length ols -> (forall p, In p ols -> In p nls) ->
+    reindexed_data nls (reindexed_data ols d c1 nls) c2 ols = d.
+  Proof.
+    intros ND HL Hsub. unfold reindexed_data at 1.
+    apply nth_ext with (d := c2) (d' := c2); [rewrite map_length; symmetry; exact HL|].
+    intros n Hn. rewrite map_length in Hn.
+    destruct (nth_error ols n) as [p|] eqn:Ep; [|apply nth_error_None in Ep; lia].
+    set (f2 := fun p : label => match pos p nls with Some q => nth q (reindexed_data ols d c1 nls) c2 | None => c2 end).
+    rewrite (nth_indep (map f2 ols) c2 (f2 p)) by (rewrite map_length; exact Hn).
+    rewrite map_nth. rewrite (nth_error_nth _ _ p Ep). unfold f2.
+    assert (Hin : In p nls) by (apply Hsub; eapply nth_error_In; exact Ep).
+    destruct (pos p nls) as [q|] eqn:Eq; [|apply pos_None in Eq; contradiction].
+    destruct (pos_Some _ _ _ Eq) as [Hq Hqlt].
+    unfold reindexed_data.
+    set (f1 := fun p : label => match pos p ols with Some q => nth q d c1 | None => c1 end).
+    rewrite (nth_indep (map f1 nls) c2 (f1 p)) by (rewrite map_length; exact Hqlt).
+    rewrite map_nth. rewrite (nth_error_nth _ _ p Hq). unfold f1. rewrite (pos_nodup _ _ _ ND Ep).
+    apply nth_indep. lia.
+  Qed.
+
+  (* extend (or permute) and come back: if every period of the (duplicate-free) original span occurs in the intermediate
+     span, reindexing there and back to the original periods restores every variable's values, dtype and name *)
+  Theorem reindex_roundtrip (st st1 st2 : cst) (mid back : span) id1 id2 fv1 fv2 strict1 strict2 fills1 fills2 fresh1 fresh2 :
+    wf st ->
+    NoDup (span_labels (c_span st)) ->
+    (forall p, In p (span_labels (c_span st)) -> In p (span_labels mid)) ->
+    span_labels back = span_labels (c_span st) ->
+    old_span_ok (c_span st) (span_labels mid) ->
+    old_span_ok mid (span_labels back) ->
+    reindex_M' st mid id1 fv1 strict1 fills1 fresh1 = Ret st1 ->
+    reindex_M' st1 back id2 fv2 strict2 fills2 fresh2 = Ret st2 ->
+    map (fun kv => (fst kv, (s_dtype (snd kv), s_data (snd kv)))) (c_vars st2)
+    = map (fun kv => (fst kv, (s_dtype (snd kv), s_data (snd kv)))) (c_vars st).
+  Proof.
+    intros Hwf ND Hsub Hback Hok1 Hok2 H1 H2.
+    pose proof (reindex_wf st st1 mid id1 fv1 strict1 fills1 fresh1 Hwf Hok1 H1) as Hwf1.
+    destruct (reindex_values st st1 mid id1 fv1 strict1 fills1 fresh1 Hwf Hok1 H1) as [Hsp1 [_ [_ [_ HF1]]]].
+    rewrite <- Hsp1 in Hok2.
+    destruct (reindex_values st1 st2 back id2 fv2 strict2 fills2 fresh2 Hwf1 Hok2 H2) as [_ [_ [_ [_ HF2]]]].
+    rewrite Hsp1, Hback in HF2. unfold wf in Hwf. revert Hwf HF2. generalize (c_vars st2).
+    induction HF1 as [|a b l l' [Ha [Hb [c1 [_ Hd1]]]] HF1 IH]; intros vars2 Hwf HF2.
+    - inversion HF2; subst. reflexivity.
+    - inversion HF2 as [|? e ? l2 [Ha2 [Hb2 [c2 [_ Hd2]]]] HF2']; subst.
+      inversion Hwf as [|? ? Hlen Hwf']; subst. simpl. rewrite (IH l2 Hwf' HF2'). f_equal.
+      rewrite Ha2, Ha, Hb2, Hb, Hd2, Hd1. rewrite (reindexed_data_roundtrip _ _ _ c1 c2 ND Hlen Hsub). reflexivity.
+  Qed.
 End Facts.
